@@ -8,7 +8,10 @@
 namespace {
 
 struct KeyT { uint8_t perc, msb, lsb; };
-static const KeyT KEYS[6] = { {0, 0, 0}, {0, 2, 0}, {1, 0, 0}, {0, 0, 1}, {0, 1, 0}, {0, 3, 0} };
+static KeyT KEYS[6] = { {0, 0, 0}, {0, 2, 0}, {1, 0, 0}, {0, 0, 1}, {0, 1, 0}, {0, 3, 0} };
+// second universe ("edge"): the first and the last bucket of the table and a lone middle one - {0/0/0, 1/0/0} in bucket 0, {0/1/127, 0/3/127, 1/1/127} in bucket 255 (the
+// iterator's scan ends there), 0/0/127 alone in bucket 127. Indices 0 and 2 stay the two banks of the loadable file.
+static const KeyT KEYS_EDGE[6] = { {0, 0, 0}, {0, 1, 127}, {1, 0, 0}, {0, 3, 127}, {1, 1, 127}, {0, 0, 127} };
 static const int NKEYS = 6;
 
 static OPN2_Instrument mk_ins(int variant) {
@@ -212,6 +215,7 @@ struct C16Model : mcx::Model {
 
 int main(int argc, char **argv) {
     pl::install_hooks(true);
+    { mcx::Args a = mcx::parse_args(argc, argv); if(a.extra.count("universe") && a.extra["universe"] == "edge") memcpy(KEYS, KEYS_EDGE, sizeof KEYS); }
     C16Model m;
     return mcx::run_main(argc, argv, m, "C16", 4, 6);
 }
